@@ -13,6 +13,8 @@ try:
     exec(open(os.path.join(V, "tools", "manifest_table.py")).read())
 except FileNotFoundError:
     pass
+if "CLAIMED" in dir():
+    CHECKS = {k: v for k, v in CHECKS.items() if k in CLAIMED}
 props = [json.loads(l) for l in open(os.path.join(V, "properties.jsonl"))]
 checks = []
 for p in props:
